@@ -125,6 +125,7 @@ int rt_blocked_woken (int t);
 extern FILE *rt_log;                       /* if non-NULL each granted step is appended as one JSON line by the harness */
 const char *rt_kind_name (int kind);
 void rt_touch (const void *addr, int is_write);
+int rt_should_save (const char *oracle);
 void *rt_data_sym (const char *name);
 void rt_run_tls_dest_fine (void);
 extern int rt_plain_steps;                 /* 1 (VERIF_PLAIN): plain accesses to heap objects and to other threads' stacks are scheduling points too,
